@@ -54,6 +54,16 @@ CREATE_LIST(Lib);
 #define FILE_PUT_CHARS(fout, s, cc)			\
 	{ fwrite(s, BYTE_BYTES, cc, fout); fflush(fout); } 
 
+/*
+ * Read cc bytes of the library file.  A short count means that the file ends
+ * before the header or section it claims to contain: it was truncated.
+ */
+#define libGetChars(lib, s, cc) {					\
+	if (fread(s, BYTE_BYTES, cc, (lib)->file) != (size_t) (cc))	\
+		comsgFatal(NULL, ALDOR_F_LibTruncated,			\
+			   libToStringStatic(lib));			\
+}
+
 /*****************************************************************************
  *
  * :: Layout of the library file header (local macros/functions)
@@ -708,8 +718,10 @@ libChkHeader(Lib lib)
 			libError(lib, ALDOR_E_LibBadSectName);
 			return false;
 		}
-		if( libNameIndex(lib, n) != i )
-			bug( "Index[Name[i]] != i" );
+		if( libNameIndex(lib, n) != i ) {
+			libError(lib, ALDOR_E_LibSectDup);
+			return false;
+		}
 	}
 
 #if 0
@@ -781,7 +793,7 @@ libGetHeader(Lib lib)
 	LIB_SEEK(lib, long0);
 	cc = libHdrSize;
 	s = strAlloc(cc);
-	FILE_GET_CHARS(lib->file, s, cc);
+	libGetChars(lib, s, cc);
 	buf = bufCapture(s, cc);
 
 	lib->hdr.magic = bufGetHInt(buf);
@@ -805,7 +817,18 @@ libGetHeader(Lib lib)
 			libNameIndex(lib, n) = i;
 	}
 
-	libChkHeader(lib);
+	if (!libChkHeader(lib))
+		comsgFatal(NULL, ALDOR_F_LibTruncated, libToStringStatic(lib));
+
+	/* A library in a file of its own ends where its last section ends. */
+	if (lib->offset == 0 && lib->hdr.numSect > 0) {
+		i = lib->hdr.numSect - 1;
+		fseek(lib->file, long0, SEEK_END);
+		if (ftell(lib->file) != (long) (libIndexSect(lib,i).offset +
+						libIndexSect(lib,i).length))
+			comsgFatal(NULL, ALDOR_F_LibTruncated,
+				   libToStringStatic(lib));
+	}
 	return lib;
 }
 
@@ -874,7 +897,13 @@ libGetSection(Lib lib, LibSectName name, Bool stat)
 	String	s;
 	Buffer	buf;
 
-	if (!libHasSection(lib, name)) return 0;
+	if (!libHasSection(lib, name)) {
+		/* Only the position sections may be left out by the writer. */
+		if (name != LIB_Pos && name != LIB_PosTbl)
+			comsgFatal(NULL, ALDOR_F_LibTruncated,
+				   libToStringStatic(lib));
+		return 0;
+	}
 
 	libVerboseDEBUG(dbOut, "Getting %s section \"%s\":\t", 
 			FTYPE_INTERMED, libSectInfo(name).str);
@@ -899,7 +928,7 @@ libGetSection(Lib lib, LibSectName name, Bool stat)
 		buf = bufCapture(s, cc);
 	}
 
-	FILE_GET_CHARS(lib->file, s, cc);
+	libGetChars(lib, s, cc);
 	bufStart(buf);
 	return buf;
 }
